@@ -16,6 +16,7 @@ import (
 	"github.com/honeycombio/refinery/logger"
 	"github.com/honeycombio/refinery/metrics"
 	"github.com/honeycombio/refinery/sample"
+	"github.com/honeycombio/refinery/types"
 	"github.com/honeycombio/refinery/verifharness/vkit"
 	"gopkg.in/yaml.v3"
 	"pgregory.net/rapid"
@@ -37,6 +38,10 @@ type c08Case struct {
 	Trace c811Trace `json:"trace"`
 	// Coin: when the matched rule has SampleRate N > 1, decide c08CoinN more times and check the kept fraction.
 	Coin bool `json:"coin,omitempty"`
+	// GrowAt k (0 < k < spans): the same trace object is first evaluated holding its first k spans, then the
+	// remaining spans arrive and it is evaluated again; the rule applied must be the one a freshly assembled
+	// trace with the same spans gets.
+	GrowAt int `json:"grow_at,omitempty"`
 }
 
 const c08CoinN = 3000
@@ -199,6 +204,18 @@ type c08Obs struct {
 func (u *c08SUT) decide(tr c811Trace) (o c08Obs) {
 	t := c811Build("c08-trace", tr)
 	o.panic = c811Recover(func() { o.rate, o.keep, o.reason, o.key = u.s.GetSampleRate(t) })
+	return o
+}
+
+// decideGrown: one trace object, evaluated with its first k spans, completed, evaluated again.
+func (u *c08SUT) decideGrown(tr c811Trace, k int) (o c08Obs) {
+	t := &types.Trace{TraceID: "c08-trace"}
+	c811Extend(t, tr, 0, k)
+	o.panic = c811Recover(func() {
+		u.s.GetSampleRate(t)
+		c811Extend(t, tr, k, len(tr.Spans))
+		o.rate, o.keep, o.reason, o.key = u.s.GetSampleRate(t)
+	})
 	return o
 }
 
@@ -497,6 +514,18 @@ func execC08(c c08Case) vkit.Result {
 		return res
 	}
 	sutIdx := c08MatchedIdx(o.reason, names)
+	if c.Trace.annotations() > 0 {
+		res.Class("has-span-event-or-link")
+	}
+	if c.GrowAt > 0 && c.GrowAt < len(c.Trace.Spans) {
+		res.Class("grown")
+		og := u.decideGrown(c.Trace, c.GrowAt)
+		if og.panic != "" {
+			res.Violate("C08/panic", "GetSampleRate panicked on the incrementally assembled trace: %s; %s", og.panic, ctx)
+		} else if gi := c08MatchedIdx(og.reason, names); gi != sutIdx {
+			res.Violate("C08/rule/depends-on-earlier-evaluation", "trace evaluated with its first %d spans, completed and evaluated again: reason %q; the same spans assembled freshly: reason %q; %s", c.GrowAt, og.reason, o.reason, ctx)
+		}
+	}
 	expIdx, dcAt := c08FirstMatch(c.Rules, c.Trace)
 	res.NonTrivial = c08IsNT(c.Rules, c.Trace, expIdx)
 	if c08HasFallbackShape(c.Rules, c.Trace) {
@@ -910,7 +939,59 @@ func genC08Trace(t *rapid.T) c811Trace {
 	})
 	tr := c811Trace{Spans: rapid.SliceOfN(spanGen, 1, 5).Draw(t, "spans")}
 	tr.Root = rapid.IntRange(-1, len(tr.Spans)-1).Draw(t, "root")
+	genC08Annotate(t, &tr)
 	return tr
+}
+
+// genC08Annotate turns some non-root members of the trace into span events / span links.
+func genC08Annotate(t *rapid.T, tr *c811Trace) {
+	for i := range tr.Spans {
+		if i == tr.Root {
+			continue
+		}
+		switch rapid.IntRange(0, 9).Draw(t, fmt.Sprintf("annotation%d", i)) {
+		case 8:
+			tr.Spans[i][c811Annotation] = c811S("span_event")
+		case 9:
+			tr.Spans[i][c811Annotation] = c811S("link")
+		}
+	}
+}
+
+// genC08Descendants is aimed at ?.NUM_DESCENDANTS ("the current number of child elements contained within a
+// trace"): traces of 1-6 members of which several are span events / links, and a threshold around the number
+// of plain spans and the total number of members; typed int, typed float and untyped.
+func genC08Descendants(t *rapid.T) c08Case {
+	n := rapid.IntRange(1, 6).Draw(t, "n")
+	tr := c811Trace{Root: rapid.IntRange(-1, n-1).Draw(t, "root")}
+	plain := 0
+	for i := 0; i < n; i++ {
+		sp := c811Span{}
+		if rapid.Bool().Draw(t, fmt.Sprintf("hasa%d", i)) {
+			sp["a"] = genC08SpanVal(t)
+		}
+		if i != tr.Root && rapid.IntRange(0, 2).Draw(t, fmt.Sprintf("ann%d", i)) > 0 {
+			sp[c811Annotation] = c811S(rapid.SampledFrom([]string{"span_event", "link"}).Draw(t, fmt.Sprintf("kind%d", i)))
+		} else {
+			plain++
+		}
+		tr.Spans = append(tr.Spans, sp)
+	}
+	th := rapid.SampledFrom([]int{plain - 1, plain, plain + 1, n - 1, n, n + 1}).Draw(t, "threshold")
+	if th < 0 {
+		th = 0
+	}
+	v := c08CVi(int64(th))
+	cond := c08Cond{Field: c08NumDescendants, Value: &v,
+		Op:       rapid.SampledFrom([]string{"=", "!=", "<", "<=", ">", ">="}).Draw(t, "op"),
+		Datatype: rapid.SampledFrom([]string{"int", "int", "", "", "float"}).Draw(t, "dt")}
+	rule := c08Rule{Scope: rapid.SampledFrom([]string{"", "trace", "span"}).Draw(t, "scope"), Conds: []c08Cond{cond}, Drop: true}
+	if rapid.IntRange(0, 3).Draw(t, "second") == 0 {
+		rule.Conds = append(rule.Conds, genC08Cond(t))
+	}
+	c := c08Case{Rules: []c08Rule{rule}, Trace: tr}
+	c.Rules = append(c.Rules, rapid.SliceOfN(rapid.Custom(genC08Rule), 0, 2).Draw(t, "more")...)
+	return c
 }
 
 // genC08Fallback is aimed at `Fields` lists that mix span-level and root.-prefixed names ("first field
@@ -1051,18 +1132,28 @@ func genC08(t *rapid.T) c08Case {
 		return genC08Fallback(t)
 	case 8:
 		return genC08NumBoundary(t)
+	case 5:
+		return genC08Grow(t, genC08Descendants(t))
 	}
 	c := c08Case{}
 	c.Rules = rapid.SliceOfN(rapid.Custom(genC08Rule), 1, 5).Draw(t, "rules")
 	c.Trace = genC08Trace(t)
 	c.Coin = rapid.IntRange(0, 9).Draw(t, "coin") == 7
+	return genC08Grow(t, c)
+}
+
+// genC08Grow: half of the multi-span cases also evaluate the trace while it is being assembled.
+func genC08Grow(t *rapid.T, c c08Case) c08Case {
+	if len(c.Trace.Spans) >= 2 && rapid.Bool().Draw(t, "grow") {
+		c.GrowAt = rapid.IntRange(1, len(c.Trace.Spans)-1).Draw(t, "growat")
+	}
 	return c
 }
 
 func TestC08(t *testing.T) {
 	vkit.Run(t, vkit.Spec[c08Case]{
 		ID:   "C08",
-		Rule: "rapid-generated rule lists (1-5 rules; scope \"\"/trace/span; 0-3 conditions over fields {a,b,c,root.a,root.b}, Field or Fields lists, ?.NUM_DESCENDANTS, has-root-span; all 15 operators x Datatype {\"\",string,int,float,bool} x Value {int,float,bool,string,numeric string,list,omitted}; outcome Drop / SampleRate N / downstream DynamicSampler and the documented precedence combinations; 1 case in 10 comes from a sub-generator aimed at numeric thresholds (Value fractional/integral float or int against integer/float/string span values at trunc(Value), trunc(Value)+-1 and Value itself, mostly untyped), 1 case in 5 from a sub-generator aimed at Fields lists mixing span-level and root.-prefixed names on multi-span traces with span values drawn from {equal to Value, another value, absent}) written as a rules file, loaded and validated like refinery does (yaml.v3 + ValidateRules), against traces of 1-5 spans with/without root whose fields are absent or carry string/int64/float64/bool/nil. Oracle: independent three-valued interpreter of rules.md + rules_conditions.md; first matching rule, rate, keep (when not a coin), delegation compared with the downstream sampler alone; a disagreement is attributed to single conditions by probing one-condition samplers. The replay tier runs the exhaustive grid (15 operators x 5 datatypes x 24 values x 2 scopes x 25 span values on one-span traces). Non-trivial: >=2 rules and the documented match is not the first rule, or a condition on a field absent from some/all spans, or span scope with >=2 conditions. Distinct = distinct case JSON.",
+		Rule: "rapid-generated rule lists (1-5 rules; scope \"\"/trace/span; 0-3 conditions over fields {a,b,c,root.a,root.b}, Field or Fields lists, ?.NUM_DESCENDANTS, has-root-span; all 15 operators x Datatype {\"\",string,int,float,bool} x Value {int,float,bool,string,numeric string,list,omitted}; outcome Drop / SampleRate N / downstream DynamicSampler and the documented precedence combinations; 1 case in 10 comes from a sub-generator aimed at ?.NUM_DESCENDANTS (traces whose members include span events / span links, threshold around the plain-span count and the member count), 1 case in 10 from a sub-generator aimed at numeric thresholds (Value fractional/integral float or int against integer/float/string span values at trunc(Value), trunc(Value)+-1 and Value itself, mostly untyped), 1 case in 5 from a sub-generator aimed at Fields lists mixing span-level and root.-prefixed names on multi-span traces with span values drawn from {equal to Value, another value, absent}) written as a rules file, loaded and validated like refinery does (yaml.v3 + ValidateRules), against traces of 1-5 spans with/without root whose fields are absent or carry string/int64/float64/bool/nil; 1 non-root member in 5 is a span event or link; half of the multi-span cases are also evaluated on one trace object that is evaluated once while it holds only its first k spans. Oracle: independent three-valued interpreter of rules.md + rules_conditions.md; first matching rule, rate, keep (when not a coin), delegation compared with the downstream sampler alone; a disagreement is attributed to single conditions by probing one-condition samplers. The replay tier runs the exhaustive grid (15 operators x 5 datatypes x 24 values x 2 scopes x 25 span values on one-span traces). Non-trivial: >=2 rules and the documented match is not the first rule, or a condition on a field absent from some/all spans, or span scope with >=2 conditions. Distinct = distinct case JSON.",
 		Assumptions: []string{
 			"don't-care (not asserted, counted): ordering operators with Datatype bool; bool spellings other than true/false/1/0; integral floats or nil coerced to text; negative fractions and numeric-looking strings under Datatype int; untyped comparison of a number with a string or bool Value (an integer span value against a fractional float Value is compared as numbers: 7 < 7.5); in/not-in with a scalar Value, Datatype bool, a list of another type than the span value (untyped) or an unconvertible span value under not-in; Value that does not convert to the Datatype; SampleRate 0; not-exists on a root.-prefixed field when the trace has no root span (rules.md and the property statement contradict each other)",
 			"a rule whose documented match status is don't-care ends the comparison for that case; rules before it must still not match",
